@@ -17,12 +17,13 @@ echo "== demo with the change (must fail)"
 cargo nextest run --offline --no-fail-fast --test "$DEMONAME" > /tmp/confirm_$ID.demo_with.log 2>&1
 WITH=$?
 tail -3 /tmp/confirm_$ID.demo_with.log
-git stash push -q -- src
+# (no git stash: the stash is shared by all worktrees of a repository)
+git apply -R /tmp/confirm_$ID.diff || { echo "cannot take the change out"; exit 2; }
 echo "== demo without the change (must pass)"
 cargo nextest run --offline --no-fail-fast --test "$DEMONAME" > /tmp/confirm_$ID.demo_without.log 2>&1
 WITHOUT=$?
 tail -3 /tmp/confirm_$ID.demo_without.log
-git stash pop -q
+git apply /tmp/confirm_$ID.diff
 echo "suite_green_with_change=$([ $SUITE -eq 0 ] && echo yes || echo no) demo_fails_with_change=$([ $WITH -ne 0 ] && echo yes || echo no) demo_passes_without=$([ $WITHOUT -eq 0 ] && echo yes || echo no)"
 if [ $SUITE -eq 0 ] && [ $WITH -ne 0 ] && [ $WITHOUT -eq 0 ]; then
   mkdir -p /verif/seeded/$ID
